@@ -66,20 +66,20 @@ def sealing_ok_plain(a, b):
 def extent_mismatch(a, b):
     """for major >= 1: equal extent, checked separately for the request and response of services"""
     return AND(major(a) > 0,
-               OR(AND(NOT(is_service(a)), NOT(extent_ok_plain(a, b))),
-                  AND(is_service(a), OR(NOT(extent_ok_plain(a.request_type, b.request_type)),
-                                        NOT(extent_ok_plain(a.response_type, b.response_type))))))
+               OR(AND(NOT(is_service(a)), lambda: NOT(extent_ok_plain(a, b))),
+                  AND(is_service(a), lambda: OR(NOT(extent_ok_plain(a.request_type, b.request_type)),
+                                                NOT(extent_ok_plain(a.response_type, b.response_type))))))
 
 
 def sealing_mismatch(a, b):
     return AND(major(a) > 0,
-               OR(AND(NOT(is_service(a)), NOT(sealing_ok_plain(a, b))),
-                  AND(is_service(a), OR(NOT(sealing_ok_plain(a.request_type, b.request_type)),
-                                        NOT(sealing_ok_plain(a.response_type, b.response_type))))))
+               OR(AND(NOT(is_service(a)), lambda: NOT(sealing_ok_plain(a, b))),
+                  AND(is_service(a), lambda: OR(NOT(sealing_ok_plain(a.request_type, b.request_type)),
+                                                NOT(sealing_ok_plain(a.response_type, b.response_type))))))
 
 
 def compat(a, b):
-    return AND(same_kind(a, b), port_id_ok(a, b), NOT(extent_mismatch(a, b)), NOT(sealing_mismatch(a, b)))
+    return AND(same_kind(a, b), port_id_ok(a, b), lambda: NOT(extent_mismatch(a, b)), lambda: NOT(sealing_mismatch(a, b)))
 
 
 # ------------------------------------------------------------------------------------------------ interface
@@ -126,15 +126,155 @@ class _Pairwise:
             "distinct": NOT(s.a.ref == s.b.ref) if smt() else s.a is not s.b,
             "same-name": EQ(s.a.full_name, s.b.full_name),
             "same-major": major(s.a) == major(s.b),
-            "different-minor": NOT(minor(s.a) == minor(s.b)),
         }
 
     raises = {
-        "VersionsOfDifferentKindError": lambda s: NOT(same_kind(s.a, s.b)),
-        "MinorVersionFixedPortIDError": lambda s: AND(same_kind(s.a, s.b), NOT(port_id_ok(s.a, s.b))),
-        "ExtentConsistencyError": lambda s: AND(same_kind(s.a, s.b), port_id_ok(s.a, s.b), extent_mismatch(s.a, s.b)),
-        "SealingConsistencyError": lambda s: AND(same_kind(s.a, s.b), port_id_ok(s.a, s.b), sealing_mismatch(s.a, s.b)),
+        # two distinct definitions of one name with the same version: rejected (was an AssertionError: finding F9)
+        "MultipleDefinitionsUnderSameVersionError": lambda s: minor(s.a) == minor(s.b),
+        "VersionsOfDifferentKindError": lambda s: AND(NOT(minor(s.a) == minor(s.b)), NOT(same_kind(s.a, s.b))),
+        "MinorVersionFixedPortIDError": lambda s: AND(NOT(minor(s.a) == minor(s.b)), same_kind(s.a, s.b),
+                                                      NOT(port_id_ok(s.a, s.b))),
+        "ExtentConsistencyError": lambda s: AND(NOT(minor(s.a) == minor(s.b)), same_kind(s.a, s.b),
+                                                port_id_ok(s.a, s.b), lambda: extent_mismatch(s.a, s.b)),
+        "SealingConsistencyError": lambda s: AND(NOT(minor(s.a) == minor(s.b)), same_kind(s.a, s.b),
+                                                 port_id_ok(s.a, s.b), lambda: sealing_mismatch(s.a, s.b)),
     }
 
     def post(s):
-        return {"compatible": compat(s.a, s.b)}
+        return {"compatible": AND(NOT(minor(s.a) == minor(s.b)), compat(s.a, s.b))}
+
+
+# ------------------------------------------------------------------------------------------------ grouping
+def _distinct(a, b):
+    return NOT(a.ref == b.ref) if smt() else a is not b
+
+
+def _same_group(a, b):
+    return AND(_distinct(a, b), EQ(a.full_name, b.full_name), major(a) == major(b))
+
+
+@contract(NS_MOD + "_ensure_minor_version_compatibility", props=P)
+class _MinorVersions:
+    """Every ordered pair of distinct definitions with equal name and equal major version is checked pairwise."""
+    params = dict(types=SeqOf(ObjOf(COMPOSITE)))
+
+    def _bad(s, pred):
+        return EXISTS_IDX(s.types, lambda i, a: EXISTS_IDX(
+            s.types, lambda j, b: AND(_same_group(a, b), pred(a, b)), name="j"))
+
+    raises = {
+        "MultipleDefinitionsUnderSameVersionError": lambda s: _MinorVersions._bad(s, lambda a, b: minor(a) == minor(b)),
+        "VersionsOfDifferentKindError": lambda s: _MinorVersions._bad(s, lambda a, b: NOT(same_kind(a, b))),
+        "MinorVersionFixedPortIDError": lambda s: _MinorVersions._bad(s, lambda a, b: NOT(port_id_ok(a, b))),
+        "ExtentConsistencyError": lambda s: _MinorVersions._bad(
+            s, lambda a, b: AND(same_kind(a, b), lambda: extent_mismatch(a, b))),
+        "SealingConsistencyError": lambda s: _MinorVersions._bad(
+            s, lambda a, b: AND(same_kind(a, b), lambda: sealing_mismatch(a, b))),
+    }
+
+    def post(s):
+        return {"all-compatible": FORALL_IDX(s.types, lambda i, a: FORALL_IDX(
+            s.types, lambda j, b: IMPLIES(_same_group(a, b), lambda: AND(NOT(minor(a) == minor(b)), compat(a, b))),
+            name="j"))}
+
+
+# ------------------------------------------------------------------------------------------------ native harness
+from pyvc.native import NativeSuite
+
+NATIVE = NativeSuite()
+
+
+def _build_type(d):
+    """Real pydsdl objects from a JSON description {name, major, minor, kind, fpid, sealed, extent[, rq, rs]}."""
+    import pydsdl
+    from pathlib import Path
+    from pydsdl import _serializable as S
+
+    def plain(name, major_, minor_, fpid, sealed, extent, parent):
+        attrs = []
+        nbytes = extent // 8
+        if sealed and nbytes > 0:
+            u8 = S.UnsignedIntegerType(8, S.PrimitiveType.CastMode.SATURATED)
+            attrs = [S.Field(S.FixedLengthArrayType(u8, nbytes), "x")]
+        comps = name.split(".")
+        if parent:
+            path = Path(*comps[:-1][:-1]) / ("%s.%d.%d.dsdl" % (comps[-2], major_, minor_))
+        else:
+            path = Path(*comps[:-1]) / ("%s.%d.%d.dsdl" % (comps[-1], major_, minor_))
+        t = S.StructureType(name=name, version=S.Version(major_, minor_), attributes=attrs, deprecated=False,
+                            fixed_port_id=fpid, source_file_path=path, has_parent_service=parent)
+        if not sealed:
+            t = S.DelimitedType(t, extent)
+        return t
+
+    if d["kind"] == "svc":
+        rq = plain(d["name"] + ".Request", d["major"], d["minor"], None, d["rq"]["sealed"], d["rq"]["extent"], True)
+        rs = plain(d["name"] + ".Response", d["major"], d["minor"], None, d["rs"]["sealed"], d["rs"]["extent"], True)
+        return S.ServiceType(rq, rs, d["fpid"])
+    return plain(d["name"], d["major"], d["minor"], d["fpid"], d["sealed"], d["extent"], False)
+
+
+def _gen_type(rng, names=("ns.A", "ns.B")):
+    kind = rng.choice(["msg", "msg", "svc"])
+    d = {"name": rng.choice(names), "major": rng.choice([0, 1, 1, 2]), "minor": rng.choice([0, 1, 2]), "kind": kind,
+         "fpid": rng.choice([None, None, 1, 2] if kind == "msg" else [None, None, 1, 2]),
+         "sealed": rng.random() < 0.5, "extent": rng.choice([0, 8, 16])}
+    if d["major"] == 0 and d["minor"] == 0:
+        d["minor"] = 1
+    if kind == "svc":
+        d["rq"] = {"sealed": rng.random() < 0.5, "extent": rng.choice([0, 8])}
+        d["rs"] = {"sealed": rng.random() < 0.5, "extent": rng.choice([0, 8])}
+    return d
+
+
+def _gen_list(rng, k):
+    return [_gen_type(rng) for _ in range(rng.choice([1, 2, 2, 3, 4]))]
+
+
+def _build_list(fn_name):
+    def build(desc):
+        from pydsdl import _namespace
+
+        types = [_build_type(d) for d in desc]
+        fn = getattr(_namespace, fn_name)
+        return (lambda: fn(types)), {"types": types}
+
+    return build
+
+
+def _gen_pair(rng, k):
+    a = _gen_type(rng, names=("ns.A",))
+    b = _gen_type(rng, names=("ns.A",))
+    b["major"] = a["major"]
+    if b["minor"] == a["minor"] and rng.random() < 0.8:
+        b["minor"] = a["minor"] + 1
+    if rng.random() < 0.7:
+        b["kind"] = a["kind"]
+        for key in ("rq", "rs"):
+            if key in a:
+                b[key] = dict(a[key]) if rng.random() < 0.6 else {"sealed": rng.random() < 0.5, "extent": rng.choice([0, 8])}
+            else:
+                b.pop(key, None)
+    if b["kind"] == "svc" and "rq" not in b:
+        b["rq"] = {"sealed": True, "extent": 0}
+        b["rs"] = {"sealed": True, "extent": 0}
+    return [a, b]
+
+
+def _build_pair(desc):
+    from pydsdl import _namespace
+
+    a, b = _build_type(desc[0]), _build_type(desc[1])
+    return (lambda: _namespace._ensure_minor_version_compatibility_pairwise(a, b)), {"a": a, "b": b}
+
+
+NATIVE.add(NS_MOD + "_ensure_no_fixed_port_id_collisions", _gen_list, _build_list("_ensure_no_fixed_port_id_collisions"))
+NATIVE.add(NS_MOD + "_ensure_minor_version_compatibility_pairwise", _gen_pair, _build_pair)
+NATIVE.add(NS_MOD + "_ensure_minor_version_compatibility", _gen_list, _build_list("_ensure_minor_version_compatibility"))
+
+NOT_COVERED = [
+    "the call site _complete_read_function (file-system bound): that the two checks are applied to "
+    "`definitions.direct` and `definitions.transitive + definitions.direct` is covered only by the C19 footprint contract",
+]
+EXPLANATION = ("Every obligation generated from the real bodies of the three rule-checking functions of _namespace.py "
+               "against the oracle predicates collide/compat transcribed from the property statement.")
